@@ -176,10 +176,24 @@ pub fn run(prop: &str, tier: Tier) -> i32 {
             prop_of,
         };
         fill_report(&mut rep, plan.run(), "U(4), D<=1");
+        // every isomorphism class of U(4): the COMPLETE oracle tree
+        let plan = SweepPlan {
+            graphs: named(crate::universe::iso_representatives(4), "U4iso"),
+            presentations: vec![Presentation::Compact],
+            kinds: kinds.clone(),
+            sems: all_sems(),
+            certs: certs.clone(),
+            lists: ArgLists::Single,
+            with_lib_default: false,
+            cfgs: vec![full_tree(FvPolicy::False)],
+            with_cadical: false,
+            prop_of,
+        };
+        fill_report(&mut rep, plan.run(), "one representative per isomorphism class of U(4) (3044), complete choice tree");
     }
     rep.rule = "cases = (graph, presentation, problem, encoder, argument, certificate flag) x every sequence of models the SAT oracle may return (ChoiceSat choice tree; complete for U(<=3), deviation-bounded elsewhere) plus one run with CaDiCaL; distinct_nontrivial = number of distinct (graph, semantics) pairs whose reference family has >= 2 extensions".into();
     rep.bounds = json!({
-        "universe": if thorough { "U(<=3) complete tree; S with D<=1 (D<=2 on members with <= 9 arguments); sparse 5-argument classes D<=2; U(4) with D<=1" } else { "U(<=3) complete tree; S with D<=1; sparse 5-argument classes D<=1; all 3044 isomorphism classes of U(4) with D<=1" },
+        "universe": if thorough { "U(<=3) complete tree; S with D<=1 (D<=2 on members with <= 9 arguments); sparse 5-argument classes D<=2; U(4) with D<=1; all isomorphism classes of U(4) with the complete tree" } else { "U(<=3) complete tree; S with D<=1; sparse 5-argument classes D<=1; all 3044 isomorphism classes of U(4) with D<=1" },
         "free_variable_policies": fvs.iter().map(|f| f.name()).collect::<Vec<_>>(),
         "cap_alternatives_per_call": 64, "cap_executions_per_query": 20000,
     });
